@@ -81,14 +81,64 @@ def tagsOne (e : Exch) (s : St) : List String :=
   (if s.writeRes.contains 2 then ["overcl"] else []) ++
   (if nwrites > 0 || e.script.contains .flush then ["nt"] else [])
 
+def parseNums (s : String) : Option (List Nat) :=
+  if s.isEmpty then some [] else (s.splitOn "_").mapM (·.toNat?)
+
+def parseBFraming (f : String) : Option BFraming :=
+  match f.toList with
+  | 'L' :: t =>
+    match parseNums (String.ofList t) with
+    | some [n, m] => some (.len n m)
+    | _ => none
+  | 'N' :: t => (String.ofList t).toNat?.map .none
+  | 'C' :: t =>
+    let cut := t.getLast? == some 'x'
+    let t := if cut then t.dropLast else t
+    let tr := t.getLast? == some 't'
+    let t := if tr then t.dropLast else t
+    (parseNums (String.ofList t)).bind fun ss =>
+      if ss.contains 0 || (cut && ss.isEmpty) then none else some (.chunked ss tr cut)
+  | _ => none
+
+def runBackend (f : List String) (impl : String) : Ans :=
+  match f with
+  | [m, pr, cn, ka, st, fr, fl] =>
+    match hexStr cn, st.toNat?, parseBFraming fr with
+    | some conn, some status, some framing =>
+      let rq : Req := { isHead := m == "HEAD", proto11 := pr == "11", conn := conn, clNonZero := false, bodyLeft := 0 }
+      let b : Backend := { status := status, framing := framing, connKeepAlive := fl.contains 'k',
+                           contentType := fl.contains 'T', big := fl.contains 'B' }
+      let (s, close) := respondBackend rq (ka == "1") b
+      let model := b2s close ++ " " ++ b2s s.limitHit ++ " - " ++ toString s.bodyLeft ++ " " ++ hexField (render s)
+      let verdict :=
+        match impl.splitOn " " with
+        | [c, _, _, _, hx] =>
+          match bytesOfHex hx with
+          | some out => judgeBackend rq.isHead rq.proto11 b (c == "1") out
+          | none => "FAIL:bad-result"
+        | _ => "FAIL:bad-result"
+      let tags := ["backend", if rq.isHead then "head" else "nohead", if rq.proto11 then "h11" else "h10",
+                   "st" ++ statusClass false status,
+                   (match framing with | .len _ _ => "b-cl" | .chunked _ _ _ => "b-chunked" | .none _ => "b-eof")] ++
+                  (if b.delivered.2 then ["b-truncated"] else []) ++ (if b.big then ["b-bighdr"] else []) ++
+                  (if b.bodyRead rq.isHead && b.delivered.1 > 0 then ["nt"] else [])
+      { model := model, verdict := verdict, tags := tags }
+    | _, _, _ => { model := "bad-op", verdict := "skip" }
+  | _ => { model := "bad-op", verdict := "skip" }
+
 def runReqPair (impl : String) : Ans :=
   { model := "1 1", verdict := if impl == "1 1" then "ok" else "FAIL:cross-request-header", tags := ["reqpair", "nt"] }
 
 def run (op impl : String) : Ans :=
   if op.startsWith "q " then runReqPair impl else
+  if op.startsWith "b " then runBackend ((op.splitOn " ").drop 1) impl else
   let multi := op.startsWith "m "
   let pair := op.startsWith "p "
-  let ops := if multi || pair then ((op.drop 2).toString.splitOn ";") else [op]
+  -- `p @<k> A;B`: the gate position does not enter the model (non-interference)
+  let body := (op.drop 2).toString
+  let gated := pair && body.startsWith "@"
+  let body := if gated then " ".intercalate ((body.splitOn " ").drop 1) else body
+  let ops := if multi || pair then (body.splitOn ";") else [op]
   match ops.mapM parseExch with
   | none => { model := "bad-op", verdict := "skip" }
   | some es =>
@@ -116,6 +166,7 @@ def run (op impl : String) : Ans :=
     let tags := (match es, hist with
                  | e :: _, (s, _) :: _ => tagsOne e s
                  | _, _ => []) ++
+      (if gated then ["pair-midbody"] else []) ++
       (if pair then ["pair"] ++
          (match es with
           | a :: _ => if a.script.any (fun x => match x with | .set "A-Big" _ => true | _ => false) then ["stallinhead"] else []
